@@ -1,6 +1,7 @@
 package rules
 
 import (
+	"strings"
 	"cvcheck/internal/core"
 
 	"golang.org/x/tools/go/ssa"
@@ -165,6 +166,26 @@ func C16(c *Ctx) {
 			}
 		}
 		r.Check("C16-5", FnKey(fn)+":has-decline-path", c.Pos(fn.Pos()), n >= 1, "no nil-returning path recognised in the slice copier")
+		// what the copier answers is a copy: every non-nil answer is one of the slice-copy assignments (a SimpleField
+		// `dst.S = src.S()` answered from here – say, for a getter result, "to evaluate the getter once" – shares the elements)
+		nAns := 0
+		for i, ret := range core.Returns(fn) {
+			for j, cs := range rc.Cases(ret.Results[0]) {
+				t := c.O.Of(cs.V)
+				if t.Is("const", "nil") {
+					continue
+				}
+				nAns++
+				kind := ""
+				if mi, isMI := cs.V.(*ssa.MakeInterface); isMI {
+					kind = mi.X.Type().String()
+				}
+				okKind := strings.HasSuffix(kind, "generator/model.SliceAssignment") || strings.HasSuffix(kind, "generator/model.SliceLoopAssignment") || strings.HasSuffix(kind, "generator/model.SliceTypecastAssignment")
+				r.Check("C16-5", sprintf("%s:return%d.%d:answers-a-copy", FnKey(fn), i+1, j+1), c.InstrPos(ret), okKind,
+					"the slice copier answers an assignment that is not a slice copy ("+kind+" "+t.String()+"): the destination would share the source's elements")
+			}
+		}
+		r.Floor("C16-5", "non-nil answers of the slice copier", nAns, 3)
 	}
 }
 
